@@ -85,9 +85,10 @@ GenEdit(r, e, opname) ==
 OpAllowed(p, opname) ==
   CASE opname \in {"indexupdate", "indexregen"} -> p.k \in {"vmap", "scan"} /\ p.n > 0
     [] opname = "staticreq" -> p.k = "static"
-    [] opname = "subtrace" -> LET L == IF p.k = "static" THEN p ELSE (IF p.subs = <<>> THEN p ELSE p.subs[1]) IN
-                              /\ L.k = "static" /\ p.k \in {"static", "vmap", "repeat", "scan", "mask", "dimap"}
-                              /\ \A j \in 1..Len(L.sites) : L.sites[j].callee.k \in {"dist", "static"}
+    [] opname = "subtrace" -> LET okL(L) == L.k = "static" /\ L.sites # <<>> /\ \A j \in 1..Len(L.sites) : L.sites[j].callee.k \in {"dist", "static"} IN
+                              \/ p.k = "static" /\ okL(p)
+                              \/ p.k \in {"vmap", "repeat", "scan", "mask", "dimap"} /\ okL(p.subs[1])
+                              \/ p.k = "switch" /\ \A j \in 1..Len(p.subs) : okL(p.subs[j])     \* the driver addresses a site of the branch that executed
     [] OTHER -> TRUE
 
 GenEdits(r, e, d) ==
